@@ -6,6 +6,7 @@ Correspondence between the Lean model (`lean/WpModel/Model/{Pango,LineBreak}.lea
 Real Pango with the fixed-pitch test font is used throughout; Pango itself is an *assumed component*
 (`Model/Pango.lean`), tied only by these runs.
 """
+import functools
 import math
 import time
 from fractions import Fraction
@@ -25,6 +26,10 @@ COLLAPSE = ('normal', 'nowrap', 'pre-line')
 LETTERS = 'abcdefhijlmnopqrstuvwxyz'   # no 'k', no 'g': the test font kerns 'kk' and has a 1.5em ligature for 'liga'
 FINDING_HYPHEN = 'break-all-hyphen-width'
 FINDING_NEGW = 'negative-width-unbroken'
+FINDING_START_SPACING = 'inline-start-spacing-overflow'
+FINDING_END_SPACING = 'inline-end-spacing-overflow'
+FINDING_END_RESERVED = 'inline-end-spacing-reserved-early'
+FINDING_STALE_WIDTH = 'inline-box-width-stale'
 
 
 # ---------------------------------------------------------------------------------------------
@@ -242,6 +247,351 @@ def real_pango(text, width_units, wrap_char, hyph, fs):
     line, index = layout.get_first_line()
     width, _ = line_size(line, style)
     return sx.dumps([line.length, index, Fraction(width)])
+
+
+# ----- dictionary hyphenation (step 4 of split_first_line)
+
+VOCABULARY = (
+    'remember yesterday carefully beautifully hyphenation international understanding development information '
+    'different important another because between children something together without example community '
+    'environment education particular available necessary themselves everyone possible president national '
+    'business american political university experience interest several history material situation individual '
+    'certainly relationship especially television organization performance traditional responsibility the of and '
+    'to in is you that it he was for on are as with his they at be this have from or one had by word but not what '
+    'all were we when your can said there use an each which she do how their if will up other about out many then '
+    'them these so some her would into time has look two more write see number way could people than first water '
+    'been called who its now find down day did come made may part').split()
+HYPHEN_LANG = 'en'
+
+
+@functools.lru_cache(maxsize=None)
+def reference_dictionary(left, right):
+    """pyphen itself (the assumed component), one object per (left, right): never WeasyPrint's cache."""
+    import pyphen
+    return pyphen.Pyphen(lang=pyphen.language_fallback(HYPHEN_LANG), left=left, right=right)
+
+
+def first_parts(word, left, right):
+    return [len(start) for start, _ in reference_dictionary(left, right).iterate(word)]
+
+
+def text_words(text):
+    out, cur = [], ''
+    for c in text:
+        if c in ' \n':
+            if cur:
+                out.append(cur)
+            cur = ''
+        else:
+            cur += c
+    if cur:
+        out.append(cur)
+    return out
+
+
+def gen_hyphen_case(rng):
+    ws = rng.choice(['normal', 'normal', 'normal', 'pre-wrap', 'pre-line'])
+    wb = rng.choice(['normal', 'normal', 'normal', 'normal', 'break-all'])
+    ow = rng.choice(['normal', 'normal', 'normal', 'anywhere'])
+    n = rng.choice([1, 1, 2, 2, 3, 4, 6, 9])
+    words = [rng.choice(VOCABULARY) for _ in range(n)]
+    sep = ' '
+    text = sep.join(words)
+    r = rng.random()
+    if r < 0.06:
+        text = text.replace(' ', '  ', 1)
+    elif r < 0.12 and ws != 'normal':
+        text = text.replace(' ', '\n', 1)
+    elif r < 0.16:
+        text = ' ' + text
+    fs = Fraction(rng.choice([5, 8, 10, 10, 16]))
+    width = Fraction(rng.randint(0, 30 * 2), 2) * fs if rng.random() < 0.92 else rng.choice(
+        [Fraction(-5), Fraction(0), Fraction(2 ** 21), math.inf])
+    limits = (rng.choice([5, 5, 5, 1, 3, 8, 12]), rng.choice([2, 2, 1, 3, 4]), rng.choice([2, 2, 1, 3, 4, 5]))
+    zone = (rng.choice([0, 0, 0, 5, 20, 60]), 'px') if rng.random() < 0.6 else (rng.choice([0, 10, 25, 50]), '%')
+    hchar = rng.choice(['‐', '‐', '‐', '-', '=='])
+    return {'text': text, 'ws': ws, 'wb': wb, 'ow': ow, 'fs': fs, 'width': width, 'ils': rng.random() < 0.85,
+            'minimum': rng.random() < 0.15, 'limits': limits, 'zone': zone, 'hchar': hchar}
+
+
+def real_sfl_hyphen(case):
+    from weasyprint.css.properties import Dimension
+    from weasyprint.text.line_break import split_first_line
+    style = ic.make_style(
+        white_space=case['ws'], word_break=case['wb'], overflow_wrap=case['ow'], font_size=float(case['fs']),
+        hyphens='auto', lang=HYPHEN_LANG, hyphenate_limit_chars=tuple(case['limits']),
+        hyphenate_limit_zone=Dimension(case['zone'][0], case['zone'][1]), hyphenate_character=case['hchar'])
+    width = case['width']
+    w = width if width is None or width == math.inf else float(width)
+
+    def call():
+        layout, length, resume, w_, _, _ = split_first_line(
+            case['text'], style, ic.context(), w, 0, case['ils'], case['minimum'])
+        return sx.dumps([length, resume, Fraction(w_), enc(layout.text)])
+    return docs.outcome(call)
+
+
+def hyphen_line(case):
+    total, left, right = case['limits']
+    words = sorted(set(text_words(case['text'])))
+    dictionary = [[enc(word), first_parts(word, left, right)] for word in words]
+    return sx.line('sflh', enc(case['text']), case['ws'], case['wb'], case['ow'], case['fs'], wire_width(case['width']),
+                   case['ils'], case['minimum'], total, case['zone'][1] == '%', Fraction(case['zone'][0]),
+                   enc(case['hchar']), dictionary)
+
+
+def hyphen_violation(case, impl):
+    """Breaks inside a word occur only at the dictionary points allowed by the element's own
+    hyphenate-limit-chars. -> what | None"""
+    if impl.startswith('err:'):
+        return f'split_first_line raised {impl[4:]}'
+    length, resume, w, ltext = sx.loads_line(impl)[0]
+    ltext = dec(ltext)
+    hchar = case['hchar']
+    if resume == 'none' or not ltext.endswith(hchar):
+        return None
+    resume = int(resume)
+    text = case['text']
+    if resume >= len(text) or resume < 1 or text[resume - 1] in ' \n' or text[resume] in ' \n':
+        return None
+    # the word that was cut and where
+    start = resume
+    while start > 0 and text[start - 1] not in ' \n':
+        start -= 1
+    end = resume
+    while end < len(text) and text[end] not in ' \n':
+        end += 1
+    word, cut = text[start:end], resume - start
+    total, left, right = case['limits']
+    allowed = first_parts(word, left, right)
+    if len(word) < total:
+        return (f'{word!r} ({len(word)} letters) is hyphenated as {word[:cut]}{hchar}{word[cut:]} although '
+                f'hyphenate-limit-chars requires {total} letters')
+    if cut not in allowed:
+        return (f'{word!r} is hyphenated as {word[:cut]}{hchar}{word[cut:]} ({cut} letters before, {len(word) - cut} '
+                f'after); with hyphenate-limit-chars {total} {left} {right} the dictionary allows only '
+                f'{[word[:k] + hchar + word[k:] for k in allowed]}')
+    return None
+
+
+# ----- nested inline boxes (rendered)
+
+def gen_inline_items(rng, n, depth, unit, safe):
+    """Children of a line: ['t', [words…]] | ['s', left, right, how, [children…]] covering n words.
+    `safe`: no start spacing, and a box with end spacing ends with a text leaf (the sub-domain in which the
+    unchanged code keeps breakable lines inside the block, see the findings inline-*)."""
+    items = []
+    while n > 0:
+        if depth > 0 and rng.random() < 0.5:
+            k = rng.randint(1, n)
+            kids = gen_inline_items(rng, k, depth - 1, unit, safe)
+            left = Fraction(0) if safe else rng.choice([0, 0, 0, 1, 2, 4]) * unit / 2
+            right = rng.choice([0, 1, 2, 2, 4, 6]) * unit / 2
+            if safe and right and kids[-1][0] != 't':
+                right = Fraction(0)
+            items.append(['s', Fraction(left), Fraction(right), rng.choice(['padding', 'border', 'margin', 'mixed']), kids])
+            n -= k
+        else:
+            k = rng.randint(1, n)
+            items.append(['t', [gen_word(rng, long_ok=False)[:rng.randint(1, 6)] for _ in range(k)]])
+            n -= k
+    merged = []
+    for item in items:
+        if item[0] == 't' and merged and merged[-1][0] == 't':
+            merged[-1][1].extend(item[1])
+        else:
+            merged.append(item)
+    return merged
+
+
+def inline_leaves(items):
+    for item in items:
+        if item[0] == 't':
+            yield item
+        else:
+            yield from inline_leaves(item[4])
+
+
+def attach_inline_spaces(items, rng, safe):
+    """Give every leaf its text: the single space between two leaves goes to one of them."""
+    protected = set()
+
+    def mark(nodes):
+        for node in nodes:
+            if node[0] == 's':
+                if node[2] != 0 and safe:
+                    protected.add(id(node[4][-1]))
+                mark(node[4])
+    mark(items)
+    leaves = list(inline_leaves(items))
+    for leaf in leaves:
+        leaf.append(' '.join(leaf[1]))
+    for i in range(len(leaves) - 1):
+        if id(leaves[i]) not in protected and rng.random() < 0.5:
+            leaves[i][2] += ' '
+        else:
+            leaves[i + 1][2] = ' ' + leaves[i + 1][2]
+
+
+def inline_html(items):
+    out = ''
+    for item in items:
+        if item[0] == 't':
+            out += html_escape(item[2])
+            continue
+        _, left, right, how, kids = item
+        if how == 'mixed':
+            lb, rb = int(left) // 2, int(right) // 2
+            css = (f'padding-left:{float(left - lb)}px;border-left:{lb}px solid;'
+                   f'padding-right:{float(right - rb)}px;border-right:{rb}px solid')
+        elif how == 'border' and left == int(left) and right == int(right):
+            css = f'border-left:{int(left)}px solid;border-right:{int(right)}px solid'
+        elif how == 'margin':
+            css = f'margin-left:{float(left)}px;margin-right:{float(right)}px'
+        else:
+            css = f'padding-left:{float(left)}px;padding-right:{float(right)}px'
+        out += f'<span style="{css}">{inline_html(kids)}</span>'
+    return out
+
+
+def gen_inline_spec(rng, safe):
+    fs = Fraction(rng.choice([1, 2, 5, 8, 10, 10, 16, 20]))   # 1px glyphs: the 1px steps of _break_waiting_children matter
+    items = gen_inline_items(rng, rng.randint(2, 10), 2, fs, safe)
+    attach_inline_spaces(items, rng, safe)
+    width = Fraction(rng.randint(4, 44), 2) * fs if rng.random() < 0.85 else Fraction(rng.randint(0, 8), 2) * fs
+    return {'items': items, 'fs': fs, 'width': width, 'all': rng.choice(['start', 'start', 'left', 'center', 'end', 'right']),
+            'ml': Fraction(rng.randint(0, 40), 4), 'safe': safe}
+
+
+def inline_para_html(spec):
+    css = (f'font-size:{float(spec["fs"])}px;width:{float(spec["width"])}px;text-align:{spec["all"]};'
+           f'margin-left:{float(spec["ml"])}px')
+    return f'<p style="{css}">{inline_html(spec["items"])}</p>'
+
+
+def render_inline_paragraphs(specs):
+    """-> list of (spec, node wire | None, block, canonical lines)."""
+    html = f'<style>{PAGE_CSS}</style>' + ''.join(inline_para_html(s) for s in specs)
+    before, pages = ic.pipeline_trees(html, enc)
+    laid = ic.laid_out_paragraphs(pages)
+    if len(before) != len(specs) or len(laid) != len(specs):
+        raise RuntimeError(f'paragraph count: {len(specs)} specs, {len(before)} before, {len(laid)} after layout')
+    out = []
+    for spec, nodes, (block, lines) in zip(specs, before, laid):
+        canon = [[snap(line.position_x), snap(line.position_y), snap(line.width), snap(line.height),
+                  [ic.frag_wire(child, enc, snap) for child in line.children]] for line in lines]
+        out.append((spec, nodes, block, canon))
+    return out
+
+
+def inline_line(spec, nodes, cbx, y, width):
+    return sx.line('ipara', nodes, 'normal', 'normal', 'normal', spec['fs'], spec['fs'], Fraction(cbx), Fraction(width),
+                   Fraction(0), spec['all'], 'auto', Fraction(y))
+
+
+# the clauses on nested inline boxes (judge / search)
+
+def frag_x(f):
+    return Fraction(f[2]) if f[0] == 't' else Fraction(f[1])
+
+
+def frag_mw(f):
+    if f[0] == 't':
+        return Fraction(f[3])
+    return Fraction(f[2]) + Fraction(f[3]) + Fraction(f[4])
+
+
+def frag_text(f):
+    return dec(f[1]) if f[0] == 't' else ''.join(frag_text(k) for k in f[5])
+
+
+def extents_violation(frags, x0):
+    """inline boxes' extents add up: children are placed one after the other from the content edge, a box is as
+    wide as its children."""
+    x = Fraction(x0)
+    for f in frags:
+        if frag_x(f) != x:
+            return f'a box starts at x={float(frag_x(f))} but the previous one ends at {float(x)}'
+        if f[0] == 'b':
+            inner = extents_violation(f[5], Fraction(f[1]) + Fraction(f[3]))
+            if inner:
+                return inner
+            if f[5] and Fraction(f[2]) != sum(frag_mw(k) for k in f[5]):
+                return (f'an inline box is {float(Fraction(f[2]))} wide, its children add up to '
+                        f'{float(sum(frag_mw(k) for k in f[5]))}')
+        x += frag_mw(f)
+    return None
+
+
+def nodes_safe(nodes):
+    """No start spacing; every box with end spacing ends with a text leaf that does not end with a space."""
+    for node in nodes:
+        if node[0] == 'b':
+            _, left, right, _, kids = node
+            if Fraction(left) != 0:
+                return False
+            if Fraction(right) != 0 and not (kids and kids[-1][0] == 't' and not dec(kids[-1][1]).endswith(' ')):
+                return False
+            if not nodes_safe(kids):
+                return False
+    return True
+
+
+def closing_spacing(frags):
+    """Sum of the end spacings of the boxes that end at the end of the line, and the last text fragment."""
+    total, last_text = Fraction(0), None
+    while frags:
+        f = frags[-1]
+        if f[0] == 't':
+            last_text = dec(f[1])
+            break
+        total += Fraction(f[4])
+        frags = f[5]
+    return total, last_text
+
+
+def inline_violation(nodes, width, canon):
+    """Clauses of C09 on the lines of a paragraph of nested inline boxes. -> (what, finding_id) | None"""
+    width = Fraction(width)
+    y = None
+    for i, (lx, ly, lw, lh, frags) in enumerate(canon):
+        lx, ly, lw, lh = Fraction(lx), Fraction(ly), Fraction(lw), Fraction(lh)
+        if y is not None and ly != y:
+            return f'line {i} starts at y={float(ly)}, previous line ends at {float(y)}', None
+        y = ly + lh
+        what = extents_violation(frags, lx)
+        if what:
+            # outside the safe sub-domain a too wide inline box is the known finding inline-box-width-stale
+            stale = 'children add up' in what and not nodes_safe(nodes)
+            return f'line {i}: {what}', (FINDING_STALE_WIDTH if stale else None)
+        if frags and lw != sum(frag_mw(f) for f in frags):
+            return f'line {i}: line width {float(lw)} is not the sum of its boxes', None
+    want = ''.join(''.join(frag_text_node(n) for n in nodes).split())
+    got = ''.join(''.join(''.join(frag_text(f) for f in line[4]) for line in canon).split())
+    if want != got:
+        return f'characters lost or duplicated: lines carry {got[:60]!r}, text is {want[:60]!r}', None
+    if not nodes_safe(nodes):
+        return None
+    for i, (lx, ly, lw, lh, frags) in enumerate(canon):
+        lw = Fraction(lw)
+        text = ''.join(frag_text(f) for f in frags).strip(' ')
+        if lw > width and ' ' in text:
+            closing, last_text = closing_spacing(frags)
+            if last_text is not None and ' ' not in last_text.strip(' ') and lw - closing <= width:
+                # known finding inline-end-spacing-overflow: the last word is alone in its text box
+                return (f'line {i} {text!r} is {float(lw)} wide in {float(width)}: the end spacing of the box is '
+                        f'not reserved for an unbreakable last child'), FINDING_END_SPACING
+            return (f'line {i} {text!r} is {float(lw)} wide, the block is {float(width)} wide, and the line could '
+                    f'break at a space'), None
+    return None
+
+
+def frag_text_node(node):
+    return dec(node[1]) if node[0] == 't' else ''.join(frag_text_node(k) for k in node[4])
+
+
+def inline_canon_from_wire(s):
+    return sx.loads_line(s)[0]
 
 
 # ----- text_align on real boxes carrying Fractions
@@ -704,6 +1054,12 @@ class C09(PropCheck):
         'ASSUMED COMPONENT: Pango/HarfBuzz/fontconfig. lean/WpModel/Model/Pango.lean is an abstract fixed-pitch Pango '
         '(greedy WRAP_WORD / WRAP_CHAR, one trailing space discounted, automatic hyphen charged inside words, log attrs); '
         'it agrees with the real Pango only on what the correspondence sections pango-first-line / split-first-line run',
+        'ASSUMED COMPONENT: pyphen. The dictionary answer (first parts of each word for the element\'s own left / right '
+        'limits) is an input of the model of step 4, computed by calling pyphen directly, never through '
+        'context.dictionaries',
+        'modelled, not verified: split_first_line step 4 (hyphens:auto), split_inline_level / split_inline_box / '
+        '_break_waiting_children / can_break_inside / skip_first_whitespace / remove_last_whitespace / '
+        'is_phantom_linebox on text boxes and inline boxes (ltr, no float, no atomic inline, one font)',
         'modelled, not verified: split_first_line steps 1-3 and 5, first_line_metrics, create_layout, split_text_box, '
         'skip_first_whitespace / remove_last_whitespace (text part), text_align, justify_line, add_word_spacing, and '
         'iter_line_boxes / get_next_linebox for a line box holding one text box without floats',
@@ -712,8 +1068,9 @@ class C09(PropCheck):
         'float comparisons of the implementation agree with the rational ones on dyadic inputs (incl. max_x *= 1 + 1e-9)',
     )
     assumptions = (
-        'step 4 of split_first_line (hyphenation) is a no-op: no soft hyphen in the text, no dictionary language',
-        'document level: one text box per paragraph, no float, no nested inline box, vertical-align baseline',
+        'no soft hyphen in the texts; dictionary hyphenation only in the hyphenation section (lang=en)',
+        'document level: text boxes and nested inline boxes, no float, vertical-align baseline; boundaries between '
+        'boxes are at spaces',
     )
 
     # ----- correspondence
@@ -727,6 +1084,8 @@ class C09(PropCheck):
         self._sec_whitespace(run)
         self._sec_align(run)
         self._sec_para(run)
+        self._sec_inline(run)
+        self._sec_hyphen(run)
 
     def _sec_pango(self, run):
         sec = run.section(
@@ -907,6 +1266,55 @@ class C09(PropCheck):
         run.extra['float_rounding'] = rounding
         run.extra['paragraphs_skipped'] = skipped
 
+    def _sec_hyphen(self, run):
+        sec = run.section(
+            'hyphenation',
+            'real split_first_line with hyphens:auto, lang=en (real pyphen through the shared context.dictionaries '
+            'cache) and every hyphenate-limit-chars / hyphenate-limit-zone / hyphenate-character vs the model of step 4 '
+            'fed with pyphen\'s own answer for the element\'s limits; non-trivial = the line ends with a hyphen')
+        rng = run.rng
+        # the calls share one context, i.e. one `context.dictionaries` cache, like the paragraphs of a document;
+        # the cases that created a cache entry are kept so that a replay can rebuild the cache first
+        self._hyphen_creators = []
+        cache = ic.context().dictionaries
+        for i in range(run.n(5000, 80000)):
+            case = gen_hyphen_case(rng)
+            known = len(cache)
+            n_creators = len(self._hyphen_creators)
+            impl = real_sfl_hyphen(case)
+            if len(cache) != known:
+                self._hyphen_creators.append(hyphen_json(case))
+            hyphenated = not impl.startswith('err:') and dec(sx.loads_line(impl)[0][3]).endswith(case['hchar'])
+            sec.add(hyphen_line(case), impl, meta={'hyphen': hyphen_json(case), 'n_creators': n_creators},
+                    nontrivial=hyphenated,
+                    tags=['hyphenated' if hyphenated else 'plain', case['ws'], 'limits-%d-%d-%d' % tuple(case['limits'])])
+
+    def _sec_inline(self, run):
+        sec = run.section(
+            'inline-doc',
+            'rendered paragraphs of nested inline boxes (text, spans with margin / border / padding on both sides, '
+            'depth <= 3): per line and per box x, width, used left/right spacing, text vs the model of '
+            'split_inline_box / _break_waiting_children / skip_first_whitespace / remove_last_whitespace; '
+            'non-trivial = at least two lines')
+        rng = run.rng
+        n_docs = run.n(45, 700)
+        per_doc = 12
+        skipped = 0
+        for _ in range(n_docs):
+            specs = [gen_inline_spec(rng, safe=rng.random() < 0.6) for _ in range(per_doc)]
+            for spec, nodes, block, canon in render_inline_paragraphs(specs):
+                if nodes is None:
+                    skipped += 1
+                    continue
+                cbx, y0, width = block.content_box_x(), block.content_box_y(), block.width
+                sec.add(inline_line(spec, nodes, cbx, y0, width), sx.dumps(canon),
+                        meta={'nodes': sx.dumps(nodes), 'width': str(Fraction(width)), 'html': inline_para_html(spec),
+                              'inline': True},
+                        nontrivial=len(canon) >= 2,
+                        tags=['safe' if nodes_safe(nodes) else 'general', f'lines{min(len(canon), 6)}',
+                              f'align-{spec["all"]}'])
+        run.extra['inline_paragraphs_skipped'] = skipped
+
     # ----- judge / search / replay
 
     def judge(self, d):
@@ -920,6 +1328,19 @@ class C09(PropCheck):
             return None
         if d['section'] == 'text-align':
             return align_violation(spec_unjson(meta['spec']), d['impl'])
+        if d['section'] == 'hyphenation':
+            what = hyphen_violation(hyphen_unjson(meta['hyphen']), d['impl'])
+            if what:
+                # the calls laid out before this one in the same context (they filled context.dictionaries)
+                meta['priors'] = list(getattr(self, '_hyphen_creators', [])[:meta.get('n_creators', 0)])
+                what += f' (after {len(meta["priors"])} earlier calls in the same layout context)'
+            return what
+        if d['section'] == 'inline-doc':
+            if d['impl'].startswith('err:'):
+                return f'layout raised {d["impl"][4:]}'
+            v = inline_violation(sx.loads_line(meta['nodes'])[0], Fraction(meta['width']),
+                                 inline_canon_from_wire(d['impl']))
+            return v[0] if v and v[1] is None else None
         if d['section'] == 'paragraph-doc':
             spec = spec_unjson(meta['spec'])
             if d['impl'].startswith('err:'):
@@ -982,8 +1403,32 @@ class C09(PropCheck):
                 if v['signature'] not in seen:
                     seen.add(v['signature'])
                     found.append(v)
+        def try_inline(batch):
+            out = []
+            try:
+                rendered = render_inline_paragraphs(batch)
+            except Exception as exc:  # noqa: BLE001
+                return [{'what': f'render raised {type(exc).__name__}: {exc}',
+                         'input': {'html': ''.join(inline_para_html(s) for s in batch), 'inline': True},
+                         'signature': 'inline-render-error'}]
+            for spec, nodes, block, canon in rendered:
+                run.search_stats['evaluations'] += 1
+                if nodes is None:
+                    continue
+                canon = sx.loads_line(sx.dumps(canon))[0]
+                v = inline_violation(sx.loads_line(sx.dumps(nodes))[0], Fraction(block.width), canon)
+                if v:
+                    out.append({'what': v[0], 'finding_id': v[1],
+                                'input': {'html': inline_para_html(spec), 'inline': True, 'nodes': sx.dumps(nodes)},
+                                'signature': f'inline:{v[0][:40]}'})
+            return out
+
         # function level on the disagreeing inputs, then fresh batches
         while time.time() < deadline and len([v for v in found if not v.get('finding_id')]) < 3:
+            for v in try_inline([gen_inline_spec(rng, safe=True) for _ in range(12)]):
+                if v['signature'] not in seen:
+                    seen.add(v['signature'])
+                    found.append(v)
             batch = [gen_para_spec(rng, canon=True) for _ in range(12)]
             for v in try_specs(batch):
                 if v['signature'] not in seen:
@@ -1007,7 +1452,9 @@ class C09(PropCheck):
         return found[:6]
 
     def finding_replays(self):
-        return {FINDING_HYPHEN: finding_break_all_hyphen, FINDING_NEGW: finding_negative_width}
+        return {FINDING_HYPHEN: finding_break_all_hyphen, FINDING_NEGW: finding_negative_width,
+                FINDING_START_SPACING: finding_start_spacing, FINDING_END_SPACING: finding_end_spacing,
+                FINDING_END_RESERVED: finding_end_reserved, FINDING_STALE_WIDTH: finding_stale_width}
 
     def replay(self, data):
         inp = data.get('input', {})
@@ -1021,6 +1468,14 @@ class C09(PropCheck):
             return v[0] if v else None
         meta = inp.get('meta') or {}
         section = inp.get('section')
+        if 'hyphen' in meta:
+            for prior in meta.get('priors', []):
+                real_sfl_hyphen(hyphen_unjson(prior))
+            case = hyphen_unjson(meta['hyphen'])
+            return hyphen_violation(case, real_sfl_hyphen(case))
+        if meta.get('inline') or inp.get('inline'):
+            v = inline_replay(meta if meta.get('inline') else inp)
+            return v[0] if v else None
         if section == 'text-align' or ('spec' in meta and 'text' not in meta):
             spec = spec_unjson(meta['spec'])
             return align_violation(spec, real_align(spec))
@@ -1058,6 +1513,72 @@ def finding_negative_width():
             'rtl': False, 'ml': Fraction(0)}
     (_, text, block, canon, _), = render_paragraphs([spec])
     return canon is not None and len(canon) == 1 and canon[0][4] != 'none' and dec(canon[0][4][0]) == 'aa b cc'
+
+
+def _inline_lines(width, body):
+    html = f'<style>{PAGE_CSS}</style><p style="width:{width}px">{body}</p>'
+    _, pages = ic.pipeline_trees(html, enc)
+    (_, lines), = ic.laid_out_paragraphs(pages)
+    return [(Fraction(line.width), ''.join(b.text for b in line.descendants() if hasattr(b, 'text'))) for line in lines]
+
+
+def finding_start_spacing():
+    """A span with padding-left:30px in a 90px block: the first line 'aaa bbb' is 100px wide."""
+    lines = _inline_lines(90, '<span style="padding-left:30px">aaa bbb ccc</span>')
+    return bool(lines) and lines[0][0] > 90 and ' ' in lines[0][1].strip()
+
+
+def finding_end_spacing():
+    """padding-right:30px on a span whose last child is the single word 'cc': one line of 110px in 80px."""
+    lines = _inline_lines(80, '<span style="padding-right:30px">aa <b>bb </b>cc</span>')
+    return bool(lines) and lines[0][0] > 80 and ' ' in lines[0][1].strip()
+
+
+def finding_end_reserved():
+    """padding-right:30px, 85px block, 'xxxx x x': the first line holds 'xxxx' although 'xxxx x' (60px) fits."""
+    lines = _inline_lines(85, '<span style="padding-right:30px">xxxx x x</span>')
+    return len(lines) >= 2 and lines[0][1].strip() == 'xxxx'
+
+
+def finding_stale_width():
+    """<span>aaa bbb<span style="padding-left:10px"> ccc</span></span> in 70px: the outer span of the first line is
+    70px wide and holds only 'aaa' (30px)."""
+    html = (f'<style>{PAGE_CSS}</style><p style="width:70px"><span>aaa bbb<span style="padding-left:10px"> ccc</span>'
+            '</span></p>')
+    _, pages = ic.pipeline_trees(html, enc)
+    (_, lines), = ic.laid_out_paragraphs(pages)
+    span = lines[0].children[0]
+    return Fraction(span.width) != sum(Fraction(c.margin_width()) for c in span.children)
+
+
+def inline_replay(meta):
+    html = f'<style>{PAGE_CSS}</style>' + meta['html']
+    before, pages = ic.pipeline_trees(html, enc)
+    (block, lines), = ic.laid_out_paragraphs(pages)
+    if before[0] is None:
+        return None
+    canon = [[snap(line.position_x), snap(line.position_y), snap(line.width), snap(line.height),
+              [ic.frag_wire(child, enc, snap) for child in line.children]] for line in lines]
+    canon = sx.loads_line(sx.dumps(canon))[0]
+    nodes = sx.loads_line(sx.dumps(before[0]))[0]
+    return inline_violation(nodes, Fraction(block.width), canon)
+
+
+def hyphen_json(case):
+    out = dict(case)
+    out['fs'] = str(case['fs'])
+    out['width'] = str(wire_width(case['width']))
+    return out
+
+
+def hyphen_unjson(case):
+    out = dict(case)
+    out['fs'] = Fraction(case['fs'])
+    width = case['width']
+    out['width'] = None if width == 'none' else (math.inf if width == 'inf' else Fraction(width))
+    out['limits'] = tuple(case['limits'])
+    out['zone'] = tuple(case['zone'])
+    return out
 
 
 def spec_json(spec):
@@ -1119,13 +1640,19 @@ MANIFEST = {
             'width] with the exact start / end / center values, a justified line is exactly as wide as the available '
             'width through any nesting and direction, text_align cannot hit its assertion; line boxes are stacked '
             'without gap or overlap. Pango itself is an assumed component (abstract fixed-pitch model, tied by the '
-            'correspondence only).',
+            'correspondence only). Strengthening round: step 4 (dictionary hyphenation) is modelled with pyphen as an '
+            'assumed input and proved to break only at the dictionary points of the element\'s own limits; nested inline '
+            'boxes are modelled function by function (split_inline_box, _break_waiting_children) and compared on '
+            'rendered paragraphs; an inline box carries start / end spacing on its first / last fragment only.',
     'note': 'Trusted: Lean kernel; the AST translator; the abstract Pango; ASCII texts without the test font\'s kerning '
             'pair kk and ligature liga; dyadic lengths. Known findings: break-all-hyphen-width (under word-break:break-all '
             "the width of Pango's automatic hyphen is charged although none is drawn: lines end one character early) and "
             'negative-width-unbroken (a negative available width with overflow-wrap:anywhere / break-all makes the line '
             'unconstrained). heuristic_transparent is false for texts with a space before a newline under collapsing '
-            'white-space (never produced by white-space processing): witness in Witness/C09. Not modelled: dictionary '
-            'hyphenation, soft hyphens, bidi (rtl paragraphs only with normal word-break/overflow-wrap), nested inline '
-            'boxes, floats in lines, vertical-align other than baseline, first-letter, leaders.',
+            'white-space (never produced by white-space processing): witness in Witness/C09. Known findings on nested '
+            'inline boxes: inline-start-spacing-overflow, inline-end-spacing-overflow, inline-end-spacing-reserved-early, '
+            'inline-box-width-stale (the greedy / extents clauses are judged only in the sub-domain where the unchanged '
+            'code satisfies them). Not modelled: soft hyphens, bidi (rtl paragraphs only with normal '
+            'word-break/overflow-wrap, nested inline boxes only ltr), floats in lines, atomic inlines, vertical-align '
+            'other than baseline, first-letter, leaders.',
 }
